@@ -95,6 +95,9 @@ pub fn groups(tier: &FTier) -> Vec<InstSpec> {
         DimMode { dynamic: true, n: 3 },
         DimMode { dynamic: false, n: 4 },
         DimMode { dynamic: true, n: 5 },
+        // larger systems (run-time dimensions cost no instantiation)
+        DimMode { dynamic: true, n: 9 },
+        DimMode { dynamic: true, n: 17 },
     ];
     let fields = [Field::Real, Field::Complex];
     let params = param_grid(tier.thorough);
@@ -119,7 +122,13 @@ pub fn groups(tier: &FTier) -> Vec<InstSpec> {
             for (pi, p) in plist.iter().enumerate() {
                 if tier.thorough || tier.full_cross {
                     // quick: four dimension modes everywhere, all eight for two of the parameter sets
-                    let dims: &[DimMode] = if tier.thorough || pi == 0 || pi == 4 { &dims_all } else { &dims_all[..4] };
+                    let dims: &[DimMode] = if tier.thorough || pi == 0 {
+                        &dims_all
+                    } else if pi == 4 {
+                        &dims_all[..8]
+                    } else {
+                        &dims_all[..4]
+                    };
                     for &dim in dims {
                         for field in fields {
                             out.push(mk(kind, dim, field, problem, *p, idx));
@@ -151,7 +160,15 @@ fn mk(kind: Kind, dim: DimMode, field: Field, problem: Problem, p: Params, idx: 
         data: if idx % 3 == 1 { DataMode::Counter } else { DataMode::Unit },
         ops: base_ops(dim, kind, p, idx),
         problem,
-        y0: if idx % 4 == 3 { 0.25 } else { 1.0 },
+        y0: if idx % 32 == 21 {
+            1e200
+        } else if idx % 32 == 5 {
+            -2.0
+        } else if idx % 4 == 3 {
+            0.25
+        } else {
+            1.0
+        },
         plan: FaultPlan::None,
         payload: Payload::Typed,
         drive: Drive::Poll,
@@ -408,11 +425,18 @@ pub fn run_group(seed: u64, gi: u64, base: &InstSpec, tier: &FTier, st: &mut Sta
             if (k + gi) % 7 == 4 {
                 drives.push(Drive::Walk(((k / 7 + gi) % 5) as u8));
             }
+            if (k + gi) % 9 == 2 {
+                drives.push(Drive::WalkOwned(((k / 9 + gi) % 2) as u8));
+            }
             if (k + gi) % 11 == 6 {
                 drives.push(Drive::PollThenWalk(((k / 11 + gi) % 5) as u8));
             }
             if (k + gi) % 4 == 2 {
                 drives.push(Drive::PollThenCollect);
+            }
+            if (k + gi) % 5 == 3 {
+                // a few items by next(), the rest (with the failing call in it, or not) by collect_vec()
+                drives.push(Drive::PollNThenCollect(1 + ((k / 5 + gi) % 7) as u8));
             }
             if (k + gi) % 4 == 1 {
                 drives.push(Drive::NthSkip(1 + ((k / 4 + gi) % 4) as u8));
@@ -432,11 +456,21 @@ pub fn run_group(seed: u64, gi: u64, base: &InstSpec, tier: &FTier, st: &mut Sta
             if (k + gi) % 13 == 7 {
                 drives.push(Drive::Last);
             }
-            let payloads: Vec<Payload> = if k <= 3 {
+            let mut payloads: Vec<Payload> = if k <= 3 {
                 PAYLOADS.to_vec()
             } else {
                 vec![PAYLOADS[((k + pi as u64 + gi) % PAYLOADS.len() as u64) as usize]]
             };
+            if pi == 1 {
+                // several calls fail: only payloads that say which call they come from can show
+                // that a later error was surfaced instead of the first
+                for p in payloads.iter_mut() {
+                    if !p.has_tag() {
+                        *p = Payload::Typed;
+                    }
+                }
+                payloads.dedup();
+            }
             for drive in &drives {
                 for payload in &payloads {
                     sub += 1;
@@ -532,10 +566,13 @@ pub fn run_group(seed: u64, gi: u64, base: &InstSpec, tier: &FTier, st: &mut Sta
             FaultPlan::Scattered(ks2)
         };
         sub += 1;
-        let drive = *rng.pick(&[Drive::Poll, Drive::CollectVec, Drive::ByRefCollect, Drive::TakeBursts(2), Drive::Nth0, Drive::Walk(0), Drive::Walk(1), Drive::Walk(2), Drive::Walk(3), Drive::Walk(4), Drive::PollThenWalk(1), Drive::PollThenCollect, Drive::NthSkip(2)]);
+        let drive = *rng.pick(&[Drive::Poll, Drive::CollectVec, Drive::ByRefCollect, Drive::TakeBursts(2), Drive::Nth0, Drive::Walk(0), Drive::Walk(1), Drive::Walk(2), Drive::Walk(3), Drive::Walk(4), Drive::WalkOwned(0), Drive::WalkOwned(1), Drive::PollThenWalk(1), Drive::PollThenCollect, Drive::PollNThenCollect(2), Drive::NthSkip(2)]);
         let inst = InstSpec {
             plan,
-            payload: *rng.pick(&PAYLOADS),
+            payload: {
+                let p = *rng.pick(&PAYLOADS);
+                if p.has_tag() { p } else { Payload::Nested }
+            },
             drive,
             extra_polls: rng.range(1, 8) as u8,
             ..base.clone()
